@@ -1391,6 +1391,7 @@ def main(chk: Check):
     run_cases(chk, cases)
     bottomup_cases(chk, chk.n(10, 120))
     bottomup_small_cases(chk, chk.n(4, 40))
+    reader_accounting(chk)
     # model-only sanity of the chunking (cheap, exact): sizes of chunks B n
     lines = [f"chunks {b} {n}" for b in range(1, 6) for n in range(0, 12)]
     for line, out in zip(lines, run_driver("C12.lean", lines)):
@@ -1399,6 +1400,21 @@ def main(chk: Check):
         want = [min(b, n - i) for i in range(0, n, b)]
         if out.split()[1:] != [str(w) for w in want]:
             chk.disagree("Decode.chunks sizes", {"B": b, "n": n}, want, out)
+
+
+def reader_accounting(chk):
+    """every predictor run terminates its reader thread (stubs._finish_reader); what happened goes into the
+    evidence, and a reader that outlives a FULLY consumed generator is reported (it is the repo's reader
+    that did not end, not the harness abandoning it)"""
+    import sys
+    import threading
+    chk.extra["reader_threads"] = dict(stubs.READER_STATS)
+    chk.extra["threads_alive_at_end"] = threading.active_count()
+    if stubs.READER_STATS["reader_alive_after_full_consumption"]:
+        chk.fail("C12/C13: a reader thread was still alive after its consumer had consumed every output",
+                 {"readers": stubs.READER_LEFTOVERS[:5]}, dict(stubs.READER_STATS))
+    if stubs.READER_STATS["reader_alive_after_drain"] or stubs.READER_STATS["threads_left_over"]:
+        print(f"note: harness could not terminate every reader thread: {stubs.READER_STATS}", file=sys.stderr)
 
 
 def replay(chk: Check, payload):
